@@ -497,7 +497,7 @@ def unit_def(unit):
 
 
 HEADER = '''// GENERATED by /verif/tools/extract.py from /repo's working tree - do not edit.
-// unit: %(unit)s   features: %(features)s
+// unit: %(unit)s   (cfg(feature = ..) resolved for the feature set recorded in the .map.json)
 #![allow(unused_imports, unused_variables, unused_mut, dead_code, unused_parens, non_snake_case)]
 use vstd::prelude::*;
 use std::sync::Arc;
